@@ -22,6 +22,31 @@
     harness/TIE_TASK.md; every theorem of Props/C05.v about [prompts]/[trace_calls] transfers by [tie_run].
     Only [tie_overrides] and [tie_sys_trace] are of kind (c) (reflexivity against a pinned value).
 
+    HONEST LABELS.
+    * Genuine translation + equality with the model for all inputs: everything listed above except the next two items.
+    * Pins (a fixed shape checked, nothing interpreted): [tie_overrides] (the list of methods CustomizedPdb defines),
+      [tie_sys_trace] (a boolean the translator emits after checking the shape of sys_trace), and the checks the
+      TRANSLATOR makes without emitting a term -- it fails closed when they do not hold, no theorem speaks about them:
+      factory.py Factory/_factory (a fresh CustomizedPdb(cmdloop_hook=CmdloopHook(hook=hook), ..) per call, its
+      trace_dispatch returned) and PdbInstanceFactory; local_.py LocalTraceFunc.init/local_trace_func (one trace function
+      per current_trace_no()) and Factory._factory (first statement / WithContext(trace, context=_context) / one yield in
+      _context); utils.py _global_trace (a FRESH closure per call event) and _create_local_trace; global_.py
+      TraceFuncCreator._trace_func and GlobalTraceFunc.init; filter.py FilterByModuleName.init, FilerByModule.__init__
+      (initial values), .init, .context, .on_cmdloop (statement for statement); runner.py: the one call
+      sys_trace(trace_func=trace_func, thread=run_arg.trace_threads), no other settrace in nextline/; spec.py: `filter` is
+      firstresult; the imports the translated names come from; module bodies (imports, defs, classes only), class bodies
+      (defs only), bases, decorators, parameter lists and defaults of everything translated; CustomizedPdb defines no
+      method besides __init__, cmdloop, _cmdloop, set_continue (or an override of a translated Bdb method);
+      super().__init__(stdin=, stdout=, nosigint=True, readrc=False) only.
+    * Ignored positions (one rule, translate/bdb_funs.py is_noise): docstrings, pass, print/logger calls and
+      `msg = <text>` whose arguments contain no Call / NamedExpr / Await / Yield / comprehension, `logger = getLogger(<name>)`;
+      an assert is never ignored (`assert next_trace` of WithContext is translated: [WAssertNextTrace]).
+    * Exceptions: the interpreter has none.  `raise BdbQuit` and an assert that fails are STUCK states, and the theorems
+      say they are not reached from quitting = False; the try/finally of Bdb.dispatch_return (frame_returning reset) is
+      given its meaning for the normal completion of user_return only -- an exception out of the command loop (a
+      KeyboardInterrupt at the prompt, C04) is outside this model and this tie.  The `try/except NotOnTraceCall` of
+      CustomizedPdb.cmdloop IS interpreted as an exception handler (the raise comes from CmdloopHook).
+
     NOT translated (stays hand-written, see the header of Bdb/Interp.v): pdb.py between Bdb.user_* and the
     command (interaction, the choice of curframe, do_X -> set_X), pluggy's call order, CPython's
     trace_trampoline, break_here/break_anywhere (no breakpoints). *)
@@ -277,7 +302,7 @@ Definition istep (c : cfg) (pol : policy) (i : nat) (st : state) (e : event) : o
           if rej then Some (st1, None, false)
           else match dcall pol i true e "trace_dispatch" [eframe e; VStr (kname (e_kind e)); VArg] st1 with
                | Some (v, s) =>
-                   match wexec FUEL local_trace_prog (truthy v) with
+                   match wexec FUEL local_trace_prog true (truthy v) with
                    | Some keep => Some (if keep then set_status (i_st s) (e_fid e) Wrapped else i_st s, hd_error (i_out s), true)
                    | None => None
                    end
@@ -291,8 +316,14 @@ Definition istep (c : cfg) (pol : policy) (i : nat) (st : state) (e : event) : o
       | Some t =>
           let w := match t with Wrapped => true | Raw => false end in
           match dcall pol i w e "trace_dispatch" [eframe e; VStr (kname (e_kind e)); VArg] st with
-          | Some (VTrace, s) => Some (i_st s, hd_error (i_out s), w)
-          | _ => None
+          | Some (v, s) =>
+              (* a WithContext closure must return itself again (then its next_trace stays live); Pdb's own
+                 trace_dispatch on a Raw frame must return non-None (f_trace is replaced by the result) *)
+              match (if w then wexec FUEL local_trace_prog true (truthy v) else Some (truthy v)) with
+              | Some true => Some (i_st s, hd_error (i_out s), w)
+              | _ => None
+              end
+          | None => None
           end
       end
   end.
@@ -308,15 +339,15 @@ Proof.
   - destruct (lookup (e_fid e) (s_status st)) as [t|]; [|reflexivity].
     rewrite <- K. rewrite tie_trace_dispatch by (rewrite K; discriminate). unfold expected. rewrite K.
     match goal with |- context[dispatch_line ?a ?b ?w ?s ?ev] => destruct (dispatch_line a b w s ev) as [st2 p] end.
-    unfold res. cbn [i_st i_out]. destruct p; reflexivity.
+    unfold res. cbn [truthy]. rewrite tie_local_trace. cbn [i_st i_out]. destruct t; destruct p; reflexivity.
   - destruct (lookup (e_fid e) (s_status st)) as [t|]; [|reflexivity].
     rewrite <- K. rewrite tie_trace_dispatch by (rewrite K; discriminate). unfold expected. rewrite K.
     match goal with |- context[dispatch_return ?a ?b ?w ?s ?ev] => destruct (dispatch_return a b w s ev) as [st2 p] end.
-    unfold res. cbn [i_st i_out]. destruct p; reflexivity.
+    unfold res. cbn [truthy]. rewrite tie_local_trace. cbn [i_st i_out]. destruct t; destruct p; reflexivity.
   - destruct (lookup (e_fid e) (s_status st)) as [t|]; [|reflexivity].
     rewrite <- K. rewrite tie_trace_dispatch by (rewrite K; discriminate). unfold expected. rewrite K.
     match goal with |- context[dispatch_exception ?a ?b ?w ?s ?ev] => destruct (dispatch_exception a b w s ev) as [st2 p] end.
-    unfold res. cbn [i_st i_out]. destruct p; reflexivity.
+    unfold res. cbn [truthy]. rewrite tie_local_trace. cbn [i_st i_out]. destruct t; destruct p; reflexivity.
 Qed.
 
 Fixpoint irun_from (c : cfg) (pol : policy) (i : nat) (st : state) (evs : list event) : option (list prompt * list nat) :=
